@@ -135,7 +135,7 @@ def run_verus_unit(unit, repo, work, tier='quick', seed=0, extra_args=None, rlim
     for l in p.stderr.split('\n'):
         l = l.strip()
         if not l.startswith('{'):
-            if l and not l.startswith(('warning', 'note')):
+            if l and not l.startswith(('warning', 'note', '[rust_verify/')):
                 diags.append({'level': 'raw', 'message': l, 'spans': [], 'children': []})
             continue
         try:
